@@ -112,6 +112,13 @@ func (p *Path) feasible() bool {
 	for _, c := range p.Conds {
 		v := c.Cond
 		pol := c.Pol
+		if k, isK := v.(*ssa.Const); isK && k.Value != nil {
+			// a constant condition (`cond && false`): the other edge is dead code
+			if s := k.Value.ExactString(); (s == "true") != pol {
+				return false
+			}
+			continue
+		}
 		for {
 			u, ok := v.(*ssa.UnOp)
 			if !ok || u.Op != token.NOT {
@@ -360,6 +367,32 @@ func (fx *Facts) atomPathsTo(target *ssa.BasicBlock, max int) ([]APath, bool) {
 		}
 	}
 	walk(fn.Blocks[0])
+	if fx.loopPaths {
+		// later iterations: a simple path from the entry sees a loop header's phis with their initial values only.
+		// Starting at the header of every loop around target leaves those phis undetermined (any earlier iteration).
+		fi := fx.info(fn)
+		for _, h := range fn.Blocks {
+			if h == target || !fi.reachable(h, target) || !fi.reachable(target, h) {
+				continue
+			}
+			isHeader := false
+			for _, pr := range h.Preds {
+				if fi.reachable(h, pr) {
+					isHeader = true
+				}
+			}
+			hasPhi := false
+			for _, in := range h.Instrs {
+				if _, isPhi := in.(*ssa.Phi); isPhi {
+					hasPhi = true
+				}
+			}
+			if isHeader && hasPhi {
+				cur = Path{}
+				walk(h)
+			}
+		}
+	}
 	return out, ok
 }
 
@@ -425,7 +458,13 @@ func (p *Path) resolvePhis() bool {
 	// drop settled constant conditions
 	out := p.Conds[:0]
 	for _, c := range p.Conds {
-		if _, isC := c.Cond.(*ssa.Const); isC {
+		if k, isC := c.Cond.(*ssa.Const); isC {
+			// a condition written as a constant (`x && false`) decides feasibility like a settled flag does
+			if k.Value != nil {
+				if s := k.Value.ExactString(); (s == "true" || s == "false") && (s == "true") != c.Pol {
+					return false
+				}
+			}
 			continue
 		}
 		out = append(out, c)
